@@ -9,9 +9,27 @@ use serde_json::json;
 use std::panic::{catch_unwind, AssertUnwindSafe};
 
 pub fn run(w: &mut W) {
+    // every extreme-size input and the id-space histories once per run
+    let mut oneoffs: Vec<(&'static str, Vec<Vec<u8>>)> = crate::gen_host::extremes();
+    oneoffs.extend(super::idspace::histories(w));
+    for (j, (name, bufs)) in oneoffs.into_iter().enumerate() {
+        if !w.oneoff(j as u64) {
+            continue;
+        }
+        let _ = w.begin_case(crate::worker::ONEOFF + j as u64, name);
+        w.rep.count(&format!("extreme.{}", name), 1);
+        let h = super::common::History { family: "ext", parsers: vec![super::common::Allowed::Default], ops: bufs.into_iter().map(|b| (0usize, b)).collect() };
+        account_history(w, h);
+    }
     for idx in w.indices() {
         let mut rng = w.begin_case(idx, "history");
         let h = hostile_history(&mut rng, &w.pools, &w.corpus);
+        account_history(w, h);
+    }
+}
+
+fn account_history(w: &mut W, h: super::common::History) {
+    {
         let mut sut = Sut::new(0);
         sut.parsers = make_parsers(&h);
         let mut shape = String::from(h.family);
